@@ -249,7 +249,7 @@ class C09World(WalletWorld):
         h = self.H(wi)
         change = ch.index('ex_chg', 2)
         idx = ch.pick('ex_idx', [0, 1, 3, 7, 20])
-        how = ch.pick('ex_how', ['key_for_path', 'address_index'])
+        how = ch.pick('ex_how', ['key_for_path', 'address_index', 'keys_for_path_bulk'])
         acc = sorted(wi.accounts)[ch.index('acc', len(wi.accounts))]
         if wi.kind == 'watch':
             acc = None
@@ -257,6 +257,20 @@ class C09World(WalletWorld):
         # an explicit index may leave a gap in this chain, whether or not the call is acknowledged
         cos = h.cosigner_id if wi.kind == 'ms' else None
         wi.explicit.add((acc or 0, wi.wt, change, cos))
+        if how == 'keys_for_path_bulk':
+            # several consecutive keys from an explicit starting point in one call
+            n = ch.int('ex_n', 2, 4)
+            ok, ks = self.call(wi, how, lambda: h.keys_for_path([change, idx], account_id=acc, number_of_keys=n))
+            if not ok:
+                return
+            w.outcome('keys', paths=[k.path for k in ks])
+            for j, k in enumerate(ks):
+                if k.address_index != idx + j or (k.change or 0) != change:
+                    w.violation('explicit_path_not_honoured', {'api': how},
+                                'asked change %d index %d (+%d), got %s stored as change %r index %r' %
+                                (change, idx, j, k.path, k.change, k.address_index))
+                self.check_key(wi, k, how)
+            return
         if how == 'key_for_path':
             ok, k = self.call(wi, how, lambda: h.key_for_path([change, idx], account_id=acc))
         else:
